@@ -158,7 +158,7 @@ def case_stream(rng, tier):
     i = 0
     kinds = ["missing", "open_err", "read_err", "isdir", "malformed", "malformed", "dsl", "dsl", "dsl_end", "out_schema", "out_x",
              "stdout_write", "stdout_write", "gz_trunc", "join_left", "first_record_early_exit", "target_open", "target_write",
-             "target_write", "target_close", "split_write", "redirect_write", "pipe_early_exit", "not_fired", "target_schema", "evicted_target_write", "two_missing", "multi_redirect_close", "prepipe_fail"]
+             "target_write", "target_close", "split_write", "redirect_write", "pipe_early_exit", "not_fired", "target_schema", "evicted_target_write", "two_missing", "multi_redirect_close", "prepipe_fail", "join_left", "prepipe_fail", "multi_redirect_close", "join_left"]
     while True:
         i += 1
         r = rng.fork("f", i)
